@@ -540,6 +540,9 @@ func (s *state) alterTable(t *schema.Table, changes []schema.Change) error {
 					return err
 				}
 				reverse = append(reverse, &schema.DropIndex{I: change.I})
+				// Reverse operation is supported if
+				// the constraint name is not generated.
+				reversible = reversible && change.I.Name != ""
 			case *schema.DropIndex:
 				b.P("DROP CONSTRAINT").Ident(change.I.Name)
 				reverse = append(reverse, &schema.AddIndex{I: change.I})
@@ -558,6 +561,9 @@ func (s *state) alterTable(t *schema.Table, changes []schema.Change) error {
 					b.P("NOT VALID")
 				}
 				reverse = append(reverse, &schema.DropForeignKey{F: change.F})
+				// Reverse operation is supported if
+				// the constraint name is not generated.
+				reversible = reversible && change.F.Symbol != ""
 			case *schema.DropForeignKey:
 				b.P("DROP CONSTRAINT")
 				if sqlx.Has(change.Extra, &schema.IfExists{}) {
@@ -951,7 +957,12 @@ func (s *state) addIndexes(src schema.Change, t *schema.Table, adds ...*schema.A
 			Cmd:     b.String(),
 			Source:  src,
 			Comment: fmt.Sprintf("create index %q to table: %q", idx.Name, t.Name),
-			Reverse: func() string {
+			Reverse: func() any {
+				// Reverse operation is supported if
+				// the index name is not generated.
+				if idx.Name == "" {
+					return nil
+				}
 				b := s.Build("DROP INDEX")
 				if sqlx.Has(add.Extra, &Concurrently{}) {
 					b.P("CONCURRENTLY")
